@@ -11,9 +11,16 @@
 #include <vector>
 
 #include <tao/pegtl.hpp>
+#include <tao/pegtl/contrib/abnf.hpp>
 #include <tao/pegtl/contrib/integer.hpp>
 #include <tao/pegtl/contrib/raw_string.hpp>
 #include <tao/pegtl/contrib/unescape.hpp>
+#include <tao/pegtl/contrib/uint16.hpp>
+#include <tao/pegtl/contrib/uint32.hpp>
+#include <tao/pegtl/contrib/uint64.hpp>
+#include <tao/pegtl/contrib/uint8.hpp>
+#include <tao/pegtl/contrib/utf16.hpp>
+#include <tao/pegtl/contrib/utf32.hpp>
 
 #include "vtrace.hpp"
 
@@ -644,6 +651,469 @@ static void section_integer( bool thorough )
    }
 }
 
+// ------------------------------------------------------------------------------------------------ C10 codecs
+
+template< typename Rule >
+static std::pair< bool, std::size_t > run_rule( const std::string& w )
+{
+   Blk b( w );
+   memory_input<> in( b.p, b.p + b.n, "src" );
+   const bool r = parse< Rule, nothing, normal, apply_mode::nothing, rewind_mode::required >( in );
+   return { r, std::size_t( in.current() - b.p ) };
+}
+
+template< typename Rule >
+static void cls_rule( const char* name )
+{
+   std::string acc;
+   int bad = 0;
+   for( int c = 0; c < 256; ++c ) {
+      const std::string w( 1, char( c ) );
+      const auto r = run_rule< Rule >( w );
+      if( r.first ) {
+         acc += char( c );
+         if( r.second != 1 )
+            ++bad;
+      }
+      else if( r.second != 0 ) {
+         ++bad;
+      }
+      // followed by another byte: still exactly one byte
+      const auto r2 = run_rule< Rule >( w + "a" );
+      if( r2.first != r.first || r2.second != r.second )
+         ++bad;
+   }
+   const auto e = run_rule< Rule >( "" );
+   rec_begin( "cls" );
+   W.str( "rule", name );
+   put_bytes( "acc", acc );
+   W.kv( "bad", bad );
+   W.kv( "empty", e.first ? 1 : 0 );
+   rec_end();
+}
+
+template< typename Peek >
+static void peek_rec( const char* f, int be, const std::string& w )
+{
+   Blk b( w );
+   memory_input<> in( b.p, b.p + b.n, "src" );
+   const auto t = Peek::peek( in );
+   memory_input<> in2( b.p, b.p + b.n, "src" );
+   const bool r = parse< internal::any< Peek >, nothing, normal, apply_mode::nothing, rewind_mode::required >( in2 );
+   rec_begin( f );
+   W.kv( "be", be );
+   put_bytes( "w", w );
+   W.kv( "n", (long long)t.size );
+   W.kv( "hi", (long long)( std::uint32_t( t.data ) >> 16 ) );
+   W.kv( "lo", (long long)( std::uint32_t( t.data ) & 0xffff ) );
+   W.kv( "rn", r ? (long long)( in2.current() - b.p ) : 0LL );
+   rec_end();
+}
+
+static void u8agg( bool thorough )
+{
+   // all three-byte sequences per lead byte E0..EF, all four-byte sequences per lead byte F0..F7 (thorough),
+   // summarised: number accepted, smallest and largest decoded value, all decoded with the right length
+   for( int lead = 0xe0; lead <= 0xef; ++lead ) {
+      long long cnt = 0, mn = -1, mx = -1, badlen = 0;
+      char buf[ 3 ] = { char( lead ), 0, 0 };
+      for( int b1 = 0; b1 < 256; ++b1 ) {
+         for( int b2 = 0; b2 < 256; ++b2 ) {
+            buf[ 1 ] = char( b1 );
+            buf[ 2 ] = char( b2 );
+            memory_input<> in( buf, buf + 3, "src" );
+            const auto t = internal::peek_utf8::peek( in );
+            if( t.size ) {
+               ++cnt;
+               if( t.size != 3 )
+                  ++badlen;
+               const long long v = (long long)t.data;
+               if( mn < 0 || v < mn )
+                  mn = v;
+               if( v > mx )
+                  mx = v;
+            }
+         }
+      }
+      rec_begin( "u8agg" );
+      W.kv( "lead", lead );
+      W.kv( "cnt", cnt );
+      W.kv( "mn", mn );
+      W.kv( "mx", mx );
+      W.kv( "badlen", badlen );
+      rec_end();
+   }
+   for( int lead = 0xf0; lead <= 0xff; ++lead ) {
+      long long cnt = 0, mn = -1, mx = -1, badlen = 0;
+      char buf[ 4 ] = { char( lead ), 0, 0, 0 };
+      const int step = thorough ? 1 : 3;  // quick: every third value of the last byte
+      for( int b1 = 0; b1 < 256; ++b1 ) {
+         for( int b2 = 0; b2 < 256; ++b2 ) {
+            for( int b3 = 0; b3 < 256; b3 += step ) {
+               buf[ 1 ] = char( b1 );
+               buf[ 2 ] = char( b2 );
+               buf[ 3 ] = char( b3 );
+               memory_input<> in( buf, buf + 4, "src" );
+               const auto t = internal::peek_utf8::peek( in );
+               if( t.size ) {
+                  ++cnt;
+                  if( t.size != 4 )
+                     ++badlen;
+                  const long long v = (long long)t.data;
+                  if( mn < 0 || v < mn )
+                     mn = v;
+                  if( v > mx )
+                     mx = v;
+               }
+            }
+         }
+      }
+      rec_begin( "u8agg" );
+      W.kv( "lead", lead );
+      W.kv( "cnt", thorough ? cnt : -1 );
+      W.kv( "mn", mn );
+      W.kv( "mx", mx );
+      W.kv( "badlen", badlen );
+      rec_end();
+   }
+}
+
+template< typename Peek >
+static void u32agg( int be )
+{
+   // every 32-bit unit: maximal ranges of accepted values
+   std::vector< std::pair< std::uint32_t, std::uint32_t > > ranges;
+   bool open = false;
+   std::uint32_t lo = 0;
+   char buf[ 4 ];
+   std::uint64_t v = 0;
+   for( ; v <= 0xffffffffull; ++v ) {
+      const std::uint32_t x = std::uint32_t( v );
+      if( be ) {
+         buf[ 0 ] = char( x >> 24 );
+         buf[ 1 ] = char( x >> 16 );
+         buf[ 2 ] = char( x >> 8 );
+         buf[ 3 ] = char( x );
+      }
+      else {
+         buf[ 3 ] = char( x >> 24 );
+         buf[ 2 ] = char( x >> 16 );
+         buf[ 1 ] = char( x >> 8 );
+         buf[ 0 ] = char( x );
+      }
+      memory_input<> in( buf, buf + 4, "src" );
+      const auto t = Peek::peek( in );
+      const bool ok = ( t.size == 4 ) && ( std::uint32_t( t.data ) == x );
+      if( ok && !open ) {
+         open = true;
+         lo = x;
+      }
+      else if( !ok && open ) {
+         open = false;
+         ranges.emplace_back( lo, x - 1 );
+      }
+   }
+   if( open )
+      ranges.emplace_back( lo, 0xffffffffu );
+   rec_begin( "u32agg" );
+   W.kv( "be", be );
+   W.s( ",\"ranges\":[" );
+   for( std::size_t i = 0; i < ranges.size() && i < 64; ++i ) {
+      if( i )
+         W.s( "," );
+      W.s( "[" );
+      W.i( ranges[ i ].first >> 16 );
+      W.s( "," );
+      W.i( ranges[ i ].first & 0xffff );
+      W.s( "," );
+      W.i( ranges[ i ].second >> 16 );
+      W.s( "," );
+      W.i( ranges[ i ].second & 0xffff );
+      W.s( "]" );
+   }
+   W.s( "]" );
+   W.kv( "nranges", (long long)ranges.size() );
+   rec_end();
+}
+
+static std::string u16bytes( unsigned u, bool be )
+{
+   std::string s;
+   if( be ) {
+      s += char( u >> 8 );
+      s += char( u & 0xff );
+   }
+   else {
+      s += char( u & 0xff );
+      s += char( u >> 8 );
+   }
+   return s;
+}
+static std::string u32bytes( std::uint32_t u, bool be )
+{
+   std::string s;
+   for( int i = 0; i < 4; ++i ) {
+      const int sh = be ? ( 24 - 8 * i ) : ( 8 * i );
+      s += char( ( u >> sh ) & 0xff );
+   }
+   return s;
+}
+
+// binary rules: the rule's parameters travel in the record, limbs are 16 bit, most significant first
+template< typename Rule >
+static void uint_rec( const char* kind, int bits, int be, std::uint64_t mask, std::uint64_t a, std::uint64_t b2, const std::string& w )
+{
+   const auto r = run_rule< Rule >( w );
+   rec_begin( "uint" );
+   W.str( "kind", kind );
+   W.kv( "bits", bits );
+   W.kv( "be", be );
+   auto limbs = [ & ]( const char* k, std::uint64_t v ) {
+      W.s( ",\"" );
+      W.s( k );
+      W.s( "\":[" );
+      W.i( ( v >> 48 ) & 0xffff );
+      W.s( "," );
+      W.i( ( v >> 32 ) & 0xffff );
+      W.s( "," );
+      W.i( ( v >> 16 ) & 0xffff );
+      W.s( "," );
+      W.i( v & 0xffff );
+      W.s( "]" );
+   };
+   limbs( "mask", mask );
+   limbs( "a", a );
+   limbs( "b", b2 );
+   put_bytes( "w", w );
+   W.kv( "res", r.first ? 1 : 0 );
+   W.kv( "n", (long long)r.second );
+   rec_end();
+}
+
+static std::vector< std::string > neighbours( const std::string& exact )
+{
+   // the exact encoding, every single-byte +-1 variation, byte-swapped, all truncations, one extra byte
+   std::vector< std::string > out = { exact, exact + "\x7f", std::string( exact.rbegin(), exact.rend() ) };
+   for( std::size_t i = 0; i < exact.size(); ++i ) {
+      for( int d : { -1, 1, 0x80 } ) {
+         std::string s = exact;
+         s[ i ] = char( ( (unsigned char)s[ i ] + d ) & 0xff );
+         out.push_back( s );
+      }
+      out.push_back( exact.substr( 0, i ) );
+   }
+   return out;
+}
+
+static std::string be_bytes( std::uint64_t v, int n, bool be )
+{
+   std::string s;
+   for( int i = 0; i < n; ++i ) {
+      const int sh = be ? 8 * ( n - 1 - i ) : 8 * i;
+      s += char( ( v >> sh ) & 0xff );
+   }
+   return s;
+}
+
+static void section_codecs( bool thorough, unsigned seed )
+{
+   std::mt19937 rng( seed );
+   // ASCII classes over every byte
+   cls_rule< alnum >( "alnum" );
+   cls_rule< alpha >( "alpha" );
+   cls_rule< blank >( "blank" );
+   cls_rule< digit >( "digit" );
+   cls_rule< identifier_first >( "identifier_first" );
+   cls_rule< identifier_other >( "identifier_other" );
+   cls_rule< lower >( "lower" );
+   cls_rule< nul >( "nul" );
+   cls_rule< odigit >( "odigit" );
+   cls_rule< print >( "print" );
+   cls_rule< seven >( "seven" );
+   cls_rule< space >( "space" );
+   cls_rule< upper >( "upper" );
+   cls_rule< xdigit >( "xdigit" );
+   cls_rule< any >( "any" );
+   cls_rule< abnf::ALPHA >( "abnf_ALPHA" );
+   cls_rule< abnf::DIGIT >( "abnf_DIGIT" );
+   cls_rule< abnf::HEXDIG >( "abnf_HEXDIG" );
+   cls_rule< abnf::VCHAR >( "abnf_VCHAR" );
+   cls_rule< abnf::CTL >( "abnf_CTL" );
+   cls_rule< abnf::WSP >( "abnf_WSP" );
+   cls_rule< abnf::BIT >( "abnf_BIT" );
+   cls_rule< abnf::CHAR >( "abnf_CHAR" );
+   cls_rule< abnf::OCTET >( "abnf_OCTET" );
+   cls_rule< abnf::SP >( "abnf_SP" );
+   cls_rule< abnf::HTAB >( "abnf_HTAB" );
+   cls_rule< abnf::DQUOTE >( "abnf_DQUOTE" );
+   cls_rule< abnf::CR >( "abnf_CR" );
+   cls_rule< abnf::LF >( "abnf_LF" );
+
+   // UTF-8: every 1-byte sequence, 2-byte sequences, the product of boundary bytes up to length 4
+   const unsigned char b26[] = { 0x00, 0x7f, 0x80, 0x8f, 0x90, 0x9f, 0xa0, 0xbf, 0xc0, 0xc1, 0xc2, 0xdf, 0xe0, 0xe1, 0xec, 0xed, 0xee, 0xef, 0xf0, 0xf1, 0xf3, 0xf4, 0xf5, 0xf7, 0xf8, 0xff };
+   const unsigned char b12[] = { 0x7f, 0x80, 0x8f, 0x90, 0x9f, 0xa0, 0xbf, 0xc2, 0xe0, 0xed, 0xf0, 0xf4 };
+   std::string bb = thorough ? std::string( (const char*)b26, 26 ) : std::string( (const char*)b12, 12 );
+   for( int a = 0; a < 256; ++a ) {
+      peek_rec< internal::peek_utf8 >( "u8", 0, std::string( 1, char( a ) ) );
+   }
+   for( int a = 0; a < 256; ++a ) {
+      const bool lead_bnd = std::string( (const char*)b26, 26 ).find( char( a ) ) != std::string::npos;
+      if( thorough || lead_bnd ) {
+         for( int c = 0; c < 256; ++c ) {
+            peek_rec< internal::peek_utf8 >( "u8", 0, std::string( { char( a ), char( c ) } ) );
+         }
+      }
+   }
+   vt::for_all_strings( bb, 4, [ & ]( const std::string& w ) {
+      if( w.size() >= 3 ) {
+         peek_rec< internal::peek_utf8 >( "u8", 0, w );
+      }
+   } );
+   for( int i = 0; i < ( thorough ? 200000 : 10000 ); ++i ) {
+      std::string w;
+      const int len = 3 + int( rng() % 2 );
+      w += char( 0xe0 + rng() % 0x18 );
+      for( int j = 1; j < len; ++j )
+         w += char( rng() % 256 );
+      peek_rec< internal::peek_utf8 >( "u8", 0, w );
+   }
+   u8agg( thorough );
+
+   // UTF-16: single units and unit pairs around the surrogate boundaries, both byte orders, truncations
+   const unsigned u16b[] = { 0x0000, 0x0041, 0x00ff, 0x0100, 0xd7ff, 0xd800, 0xd801, 0xdbff, 0xdc00, 0xdc01, 0xdfff, 0xe000, 0xfeff, 0xfffe, 0xffff, 0x1234 };
+   for( int be = 0; be < 2; ++be ) {
+      auto one_unit = [ & ]( unsigned u ) {
+         const std::string a = u16bytes( u, be );
+         if( be )
+            peek_rec< internal::peek_utf16_be >( "u16", 1, a );
+         else
+            peek_rec< internal::peek_utf16_le >( "u16", 0, a );
+      };
+      auto two_units = [ & ]( unsigned u, unsigned v ) {
+         const std::string a = u16bytes( u, be ) + u16bytes( v, be );
+         for( std::size_t cut : { std::size_t( 4 ), std::size_t( 3 ), std::size_t( 1 ) } ) {
+            if( be )
+               peek_rec< internal::peek_utf16_be >( "u16", 1, a.substr( 0, cut ) );
+            else
+               peek_rec< internal::peek_utf16_le >( "u16", 0, a.substr( 0, cut ) );
+         }
+      };
+      if( thorough ) {
+         for( unsigned u = 0; u < 0x10000; ++u ) {
+            one_unit( u );
+            for( unsigned v : u16b ) {
+               if( ( u >= 0xd700 && u <= 0xe0ff ) || ( u % 251 ) == 0 )
+                  two_units( u, v );
+            }
+         }
+      }
+      else {
+         for( unsigned u = 0; u < 0x10000; u += 7 ) {
+            one_unit( u );
+         }
+      }
+      for( unsigned u : u16b ) {
+         one_unit( u );
+         for( unsigned v : u16b ) {
+            two_units( u, v );
+         }
+      }
+      peek_rec< internal::peek_utf16_be >( "u16", 1, "" );
+   }
+   // UTF-32: boundary units +-2, random units, truncations; thorough: the accept set over all 2^32 units
+   const std::uint32_t u32b[] = { 0x0, 0x7f, 0x80, 0xffff, 0x10000, 0xd7ff, 0xd800, 0xdfff, 0xe000, 0x10ffff, 0x110000, 0x7fffffff, 0x80000000u, 0xffffffffu, 0xff0000u, 0x1000000u };
+   for( int be = 0; be < 2; ++be ) {
+      auto unit = [ & ]( std::uint32_t u ) {
+         const std::string a = u32bytes( u, be );
+         for( std::size_t cut : { std::size_t( 4 ), std::size_t( 3 ), std::size_t( 0 ) } ) {
+            if( be )
+               peek_rec< internal::peek_utf32_be >( "u32", 1, a.substr( 0, cut ) );
+            else
+               peek_rec< internal::peek_utf32_le >( "u32", 0, a.substr( 0, cut ) );
+         }
+      };
+      for( std::uint32_t u : u32b ) {
+         for( int d = -2; d <= 2; ++d ) {
+            unit( std::uint32_t( u + std::uint32_t( d ) ) );
+         }
+      }
+      for( int i = 0; i < ( thorough ? 100000 : 5000 ); ++i ) {
+         unit( std::uint32_t( rng() ) );
+         unit( std::uint32_t( rng() % 0x120000 ) );
+      }
+   }
+   if( thorough ) {
+      u32agg< internal::peek_utf32_be >( 1 );
+      u32agg< internal::peek_utf32_le >( 0 );
+   }
+
+   // binary rules
+   for( const std::string& w : neighbours( be_bytes( 0x1234, 2, true ) ) ) {
+      uint_rec< uint16_be::one< 0x1234 > >( "one", 16, 1, 0xffff, 0x1234, 0x1234, w );
+      uint_rec< uint16_le::one< 0x3412 > >( "one", 16, 0, 0xffff, 0x3412, 0x3412, w );
+      uint_rec< uint16_be::not_one< 0x1234 > >( "not_one", 16, 1, 0xffff, 0x1234, 0x1234, w );
+      uint_rec< uint16_be::range< 0x1200, 0x12ff > >( "range", 16, 1, 0xffff, 0x1200, 0x12ff, w );
+      uint_rec< uint16_le::range< 0x1200, 0x12ff > >( "range", 16, 0, 0xffff, 0x1200, 0x12ff, w );
+      uint_rec< uint16_be::mask_one< 0x0ff0, 0x0230 > >( "one", 16, 1, 0x0ff0, 0x0230, 0x0230, w );
+      uint_rec< uint16_le::mask_range< 0xff00, 0x1000, 0x2000 > >( "range", 16, 0, 0xff00, 0x1000, 0x2000, w );
+      uint_rec< uint16_be::any >( "any", 16, 1, 0xffff, 0, 0, w );
+      uint_rec< uint8::one< 0x12 > >( "one", 8, 1, 0xff, 0x12, 0x12, w );
+      uint_rec< uint8::mask_one< 0xf0, 0x10 > >( "one", 8, 1, 0xf0, 0x10, 0x10, w );
+      uint_rec< uint8::range< 0x10, 0x13 > >( "range", 8, 1, 0xff, 0x10, 0x13, w );
+   }
+   if( thorough ) {
+      for( unsigned u = 0; u < 0x10000; ++u ) {
+         const std::string w = u16bytes( u, true );
+         uint_rec< uint16_be::range< 0x1200, 0x12ff > >( "range", 16, 1, 0xffff, 0x1200, 0x12ff, w );
+         uint_rec< uint16_le::mask_one< 0x0ff0, 0x0230 > >( "one", 16, 0, 0x0ff0, 0x0230, 0x0230, w );
+      }
+   }
+   for( const std::string& w : neighbours( be_bytes( 0x12345678, 4, true ) ) ) {
+      uint_rec< uint32_be::one< 0x12345678 > >( "one", 32, 1, 0xffffffffu, 0x12345678, 0x12345678, w );
+      uint_rec< uint32_le::one< 0x78563412 > >( "one", 32, 0, 0xffffffffu, 0x78563412, 0x78563412, w );
+      uint_rec< uint32_be::range< 0x12340000, 0x1234ffff > >( "range", 32, 1, 0xffffffffu, 0x12340000, 0x1234ffff, w );
+      uint_rec< uint32_le::mask_one< 0x00ffff00, 0x00563400 > >( "one", 32, 0, 0x00ffff00, 0x00563400, 0x00563400, w );
+      uint_rec< uint32_be::mask_range< 0xffff0000u, 0x12000000, 0x12ff0000 > >( "range", 32, 1, 0xffff0000u, 0x12000000, 0x12ff0000, w );
+      uint_rec< uint32_be::any >( "any", 32, 1, 0xffffffffu, 0, 0, w );
+   }
+   for( const std::string& w : neighbours( be_bytes( 0x0102030405060708ull, 8, true ) ) ) {
+      uint_rec< uint64_be::one< 0x0102030405060708ull > >( "one", 64, 1, ~0ull, 0x0102030405060708ull, 0x0102030405060708ull, w );
+      uint_rec< uint64_le::one< 0x0807060504030201ull > >( "one", 64, 0, ~0ull, 0x0807060504030201ull, 0x0807060504030201ull, w );
+      uint_rec< uint64_be::range< 0x0102030405060000ull, 0x010203040506ffffull > >( "range", 64, 1, ~0ull, 0x0102030405060000ull, 0x010203040506ffffull, w );
+      uint_rec< uint64_le::mask_one< 0xff000000000000ffull, 0x0800000000000001ull > >( "one", 64, 0, 0xff000000000000ffull, 0x0800000000000001ull, 0x0800000000000001ull, w );
+      uint_rec< uint64_be::any >( "any", 64, 1, ~0ull, 0, 0, w );
+   }
+   uint_rec< uint64_be::one< 0xffffffffffffffffull > >( "one", 64, 1, ~0ull, ~0ull, ~0ull, std::string( 8, '\xff' ) );
+   uint_rec< uint64_be::one< 0x8000000000000000ull > >( "one", 64, 1, ~0ull, 0x8000000000000000ull, 0x8000000000000000ull, be_bytes( 0x8000000000000000ull, 8, true ) );
+   uint_rec< uint64_be::range< 0x7fffffffffffffffull, 0x8000000000000001ull > >( "range", 64, 1, ~0ull, 0x7fffffffffffffffull, 0x8000000000000001ull, be_bytes( 0x8000000000000000ull, 8, true ) );
+
+   // case-insensitive strings: every byte at every position of a pattern with letters, digits and the neighbours of the letters
+   using ipat = istring< 'a', 'Z', '1', '[', '@', '`', '{', 'm' >;
+   const std::string pat = "aZ1[@`{m";
+   for( std::size_t i = 0; i < pat.size(); ++i ) {
+      for( int c = 0; c < 256; ++c ) {
+         std::string w = pat;
+         w[ i ] = char( c );
+         const auto r = run_rule< ipat >( w );
+         rec_begin( "istr" );
+         put_bytes( "pat", pat );
+         put_bytes( "w", w );
+         W.kv( "res", r.first ? 1 : 0 );
+         W.kv( "n", (long long)r.second );
+         rec_end();
+      }
+   }
+   for( std::size_t cut = 0; cut < pat.size(); ++cut ) {
+      const auto r = run_rule< ipat >( pat.substr( 0, cut ) );
+      rec_begin( "istr" );
+      put_bytes( "pat", pat );
+      put_bytes( "w", pat.substr( 0, cut ) );
+      W.kv( "res", r.first ? 1 : 0 );
+      W.kv( "n", (long long)r.second );
+      rec_end();
+   }
+}
+
 int main( int argc, char** argv )
 {
    if( argc < 4 ) {
@@ -666,6 +1136,9 @@ int main( int argc, char** argv )
    }
    else if( section == "integer" ) {
       section_integer( thorough );
+   }
+   else if( section == "codecs" ) {
+      section_codecs( thorough, seed );
    }
    else {
       std::fprintf( stderr, "unknown section %s\n", section.c_str() );
